@@ -249,6 +249,11 @@ class C06(core.Prop):
                     member_of.setdefault(n, []).append(k2)
             cl.append(('mapping_relation_each_step', all(sorted(set(nodes[n].get('fragid', []))) == sorted(member_of[n]) and member_of[n]
                                                        for n in nodes)))
+            # the graph stored on a coarse node is the sub-graph its fine nodes induce
+            fine_edges = {frozenset((a, b)) for a, b, _o, _bd in st['mol']['edges']}
+            cl.append(('member_graph_is_induced_subgraph_each_step', all(
+                {frozenset(e) for e in d.get('_member_edges', [])} == {e for e in fine_edges if e <= set(d.get('_members', []))}
+                for d in st['meta']['nodes'].values() if '_members' in d)))
         if shape.get('mode') == 'tmpl':
             g1, h1, _ = pl.observed_heavy_graph(steps[-1]['mol'])
             g2, h2, _ = pl.observed_heavy_graph(o['two']['mol'])
